@@ -26,6 +26,9 @@ def plan(tier, seed):
 def gen_case(rng, tier):
     from .. import mixgen
     cfg = mixgen.draw_config(rng)
+    if rng.random() < 0.15:
+        # a lease-honouring client: its requests wait for the server's (small, then unlimited) leases
+        cfg['lease'] = mixgen.draw_leases(rng)
     cfg['instrument_queue'] = True
     specs = []
     iid = 1
